@@ -739,7 +739,7 @@ theorem consumed_of_suffix (a b : Bytes) (h : b <:+ a) : consumed a b ++ b = a :
   rw [consumed_append]
 
 theorem canonicalPre_ok (bs r0 r : Bytes) (n t : Nat) (h : canonicalPre bs = .ok (n, t, r0, r)) :
-    decArray bs = .ok (n, r0) ∧ r <:+ r0 ∧ (n = 5 ∨ n = 6) := by
+    decArray bs = .ok (n, r0) ∧ r <:+ r0 ∧ (n = 5 ∨ n = 6) ∧ t ≤ 2 ∧ (n = 6 ↔ t ≠ 0) := by
   unfold canonicalPre at h
   simp only [bind, Except.bind] at h
   split at h
@@ -762,15 +762,22 @@ theorem canonicalPre_ok (bs r0 r : Bytes) (n t : Nat) (h : canonicalPre bs = .ok
             · next v4 h4 =>
               split at h
               · cases h
-              · next d r' h5 =>
-                cases h
-                refine ⟨hd, ?_, by omega⟩
-                have s1 := uintU_suffix _ _ _ (show uintU p.snd = .ok (v1.fst, v1.snd) from h1)
-                have s2 := uintU_suffix _ _ _ (show uintU v1.snd = .ok (v2.fst, v2.snd) from h2)
-                have s3 := uintU_suffix _ _ _ (show uintU v2.snd = .ok (v3.fst, v3.snd) from h3)
-                have s4 := uintU_suffix _ _ _ (show uintU v3.snd = .ok (v4.fst, v4.snd) from h4)
-                have s5 := decBytes_suffix _ _ _ h5
-                exact s5.trans (s4.trans (s3.trans (s2.trans s1)))
+              · next ht2 =>
+                split at h
+                · cases h
+                · next hlen =>
+                  split at h
+                  · cases h
+                  · next d r' h5 =>
+                    cases h
+                    have s1 := uintU_suffix _ _ _ (show uintU p.snd = .ok (v1.fst, v1.snd) from h1)
+                    have s2 := uintU_suffix _ _ _ (show uintU v1.snd = .ok (v2.fst, v2.snd) from h2)
+                    have s3 := uintU_suffix _ _ _ (show uintU v2.snd = .ok (v3.fst, v3.snd) from h3)
+                    have s4 := uintU_suffix _ _ _ (show uintU v3.snd = .ok (v4.fst, v4.snd) from h4)
+                    have s5 := decBytes_suffix _ _ _ h5
+                    refine ⟨hd, s5.trans (s4.trans (s3.trans (s2.trans s1))), by omega, by omega, ?_⟩
+                    simp only [ne_eq, Decidable.not_not] at hlen
+                    by_cases h6 : p.fst = 6 <;> by_cases h0 : v4.fst = 0 <;> simp_all
 
 /-- Parser-level `accept_iff_crc` for a canonical block whose array head and CRC item head are in
 shortest form: accepted iff the last `crcLen t` bytes of exactly the bytes the parser consumed for
@@ -853,7 +860,8 @@ theorem uintE_suffix (bs rest : Bytes) (n : Nat) (h : uintE bs = .ok (n, rest)) 
   · cases h
   · next r hd => cases h; exact decExpect_suffix _ bs _ _ hd
 
-theorem primaryPre_ok (bs r : Bytes) (n t : Nat) (h : primaryPre bs = .ok (n, t, r)) : r <:+ bs := by
+theorem primaryPre_ok (bs r : Bytes) (n t : Nat) (h : primaryPre bs = .ok (n, t, r)) :
+    r <:+ bs ∧ t ≤ 2 ∧ ((n = 9 ∨ n = 11) ↔ t ≠ 0) := by
   unfold primaryPre at h
   simp only [bind, Except.bind] at h
   split at h
@@ -874,46 +882,59 @@ theorem primaryPre_ok (bs r : Bytes) (n t : Nat) (h : primaryPre bs = .ok (n, t,
             have s2 := uintE_suffix _ _ _ (show uintE v1.snd = .ok (v2.fst, v2.snd) from h2)
             split at h
             · cases h
-            · next v3 h3 =>
-              have s3 := uintE_suffix _ _ _ (show uintE v2.snd = .ok (v3.fst, v3.snd) from h3)
-              split at h
+            · split at h
               · cases h
-              · next k1 g1 =>
-                have t1 := skipE_suffix _ _ g1
+              · next v3 h3 =>
+                have s3 := uintE_suffix _ _ _ (show uintE v2.snd = .ok (v3.fst, v3.snd) from h3)
                 split at h
                 · cases h
-                · next k2 g2 =>
-                  have t2 := skipE_suffix _ _ g2
+                · next ht2 =>
                   split at h
                   · cases h
-                  · next k3 g3 =>
-                    have t3 := skipE_suffix _ _ g3
+                  · next hlen =>
                     split at h
                     · cases h
-                    · next k4 g4 =>
-                      have t4 := skipE_suffix _ _ g4
+                    · next k1 g1 =>
+                      have t1 := skipE_suffix _ _ g1
                       split at h
                       · cases h
-                      · next v5 h5 =>
-                        have s5 := uintE_suffix _ _ _ (show uintE k4 = .ok (v5.fst, v5.snd) from h5)
-                        have base : v5.snd <:+ bs :=
-                          s5.trans (t4.trans (t3.trans (t2.trans (t1.trans (s3.trans (s2.trans (s1.trans s0)))))))
+                      · next k2 g2 =>
+                        have t2 := skipE_suffix _ _ g2
                         split at h
                         · cases h
-                        · next v6 h6 =>
-                          cases h
-                          split at h6
-                          · split at h6
-                            · cases h6
-                            · next w1 q1 =>
-                              split at h6
-                              · cases h6
-                              · next w2 q2 =>
-                                cases h6
-                                have u1 := uintE_suffix _ _ _ (show uintE v5.snd = .ok (w1.fst, w1.snd) from q1)
-                                have u2 := uintE_suffix _ _ _ (show uintE w1.snd = .ok (w2.fst, w2.snd) from q2)
-                                exact u2.trans (u1.trans base)
-                          · cases h6; exact base
+                        · next k3 g3 =>
+                          have t3 := skipE_suffix _ _ g3
+                          split at h
+                          · cases h
+                          · next k4 g4 =>
+                            have t4 := skipE_suffix _ _ g4
+                            split at h
+                            · cases h
+                            · next v5 h5 =>
+                              have s5 := uintE_suffix _ _ _ (show uintE k4 = .ok (v5.fst, v5.snd) from h5)
+                              have base : v5.snd <:+ bs :=
+                                s5.trans (t4.trans (t3.trans (t2.trans (t1.trans (s3.trans (s2.trans (s1.trans s0)))))))
+                              have hty : v3.fst ≤ 2 ∧ ((p.fst = 9 ∨ p.fst = 11) ↔ v3.fst ≠ 0) := by
+                                refine ⟨by omega, ?_⟩
+                                simp only [ne_eq, Decidable.not_not] at hlen
+                                by_cases h6 : (p.fst = 9 ∨ p.fst = 11) <;> by_cases h0 : v3.fst = 0 <;> simp_all
+                              split at h
+                              · cases h
+                              · next v6 h6 =>
+                                cases h
+                                refine ⟨?_, hty⟩
+                                split at h6
+                                · split at h6
+                                  · cases h6
+                                  · next w1 q1 =>
+                                    split at h6
+                                    · cases h6
+                                    · next w2 q2 =>
+                                      cases h6
+                                      have u1 := uintE_suffix _ _ _ (show uintE v5.snd = .ok (w1.fst, w1.snd) from q1)
+                                      have u2 := uintE_suffix _ _ _ (show uintE w1.snd = .ok (w2.fst, w2.snd) from q2)
+                                      exact u2.trans (u1.trans base)
+                                · cases h6; exact base
 
 /-- Parser-level `accept_iff_crc` for the primary block (everything from the array head on is tee'd as
 received, so only the CRC item head has to be in shortest form). -/
@@ -922,7 +943,7 @@ theorem primary_accept_iff_crc (t : Nat) (ht : t = 1 ∨ t = 2) (bs r v x : Byte
     (hitem : r = encBytes v ++ x) (hv : v.length = crcLen t) :
     parsePrimary bs = .ok x ↔ BlockCrcOk t (consumed bs x) := by
   subst hitem
-  have hs := primaryPre_ok bs _ n t hpre
+  have hs := (primaryPre_ok bs _ n t hpre).1
   have e1 := consumed_of_suffix bs _ hs
   generalize hcdef : consumed bs (encBytes v ++ x) = cc at *
   have hbs : bs = (cc ++ encBytes v) ++ x := by rw [← e1]; simp [List.append_assoc]
@@ -939,5 +960,39 @@ theorem primary_accept_iff_crc (t : Nat) (ht : t = 1 ∨ t = 2) (bs r v x : Byte
       if c = v then .ok (v, x) else .error .crc := hchk
   rw [hchk', hchk]
   by_cases hcv : c = v <;> simp [hcv]
+
+/-! ### After the repair of D5: a declared CRC is always carried -/
+
+theorem t_cases (t : Nat) (h2 : t ≤ 2) (h0 : t ≠ 0) : t = 1 ∨ t = 2 := by omega
+
+/-- Canonical block, no assumption on the array length or on the type being a known one. -/
+theorem canonical_accept_iff_crc_decl (bs r0 r v x : Bytes) (n t : Nat)
+    (hpre : canonicalPre bs = .ok (n, t, r0, r)) (hdecl : t ≠ 0)
+    (hhead : consumed bs r0 = encArray n)
+    (hitem : r = encBytes v ++ x) (hv : v.length = crcLen t) :
+    parseCanonical bs = .ok x ↔ BlockCrcOk t (consumed bs x) := by
+  obtain ⟨_, _, _, h2, h6⟩ := canonicalPre_ok bs r0 r n t hpre
+  have hn : n = 6 := h6.mpr hdecl
+  subst hn
+  exact canonical_accept_iff_crc t (t_cases t h2 hdecl) bs r0 r v x hpre hhead hitem hv
+
+theorem primary_accept_iff_crc_decl (bs r v x : Bytes) (n t : Nat)
+    (hpre : primaryPre bs = .ok (n, t, r)) (hdecl : t ≠ 0)
+    (hitem : r = encBytes v ++ x) (hv : v.length = crcLen t) :
+    parsePrimary bs = .ok x ↔ BlockCrcOk t (consumed bs x) := by
+  obtain ⟨_, h2, h9⟩ := primaryPre_ok bs r n t hpre
+  exact primary_accept_iff_crc t (t_cases t h2 hdecl) bs r v x n (h9.mpr hdecl) hpre hitem hv
+
+/-- An accepted canonical block that declares a CRC went through the comparison. -/
+theorem canonical_declared_checked (bs x r0 r : Bytes) (n t : Nat)
+    (hpre : canonicalPre bs = .ok (n, t, r0, r)) (hdecl : t ≠ 0) (hacc : parseCanonical bs = .ok x) :
+    n = 6 ∧ (t = 1 ∨ t = 2) ∧ ∃ v, checkField (canonicalBuf 6 r0 r) t r = .ok (v, x) := by
+  obtain ⟨_, _, _, h2, h6⟩ := canonicalPre_ok bs r0 r n t hpre
+  have hn : n = 6 := h6.mpr hdecl
+  subst hn
+  refine ⟨rfl, t_cases t h2 hdecl, ?_⟩
+  rcases parseCanonical_ok bs x hacc with ⟨t5, r5, h5⟩ | ⟨t6, r6, r6', v, h6', hc⟩
+  · rw [hpre] at h5; cases h5
+  · rw [hpre] at h6'; cases h6'; exact ⟨v, hc⟩
 
 end Dtn7.Crc.Lemmas
